@@ -28,7 +28,8 @@ Record kl_cfg := {
   max_bad : N;                    (* max_bad_move_in_a_row *)
   old_scan : bool;                (* first candidate scan ends in `.unwrap()`, no `any` test *)
   old_rewind : bool;              (* `min_by(..).unwrap()`, rewind keeps saves[..=best_pos] *)
-  few_ids_return : bool           (* `if unique_ids.len() < 2 { return; }` precedes the `unimplemented!()` *)
+  few_ids_return : bool;          (* `if unique_ids.len() < 2 { return; }` precedes the `unimplemented!()` *)
+  sprs_cut : bool                 (* the topology is a CsMatView (overridden edge_cut); false: Topology::edge_cut *)
 }.
 
 (* itertools `unique()`: first occurrences, in order *)
@@ -38,10 +39,18 @@ Fixpoint uniq (seen : list N) (p : list N) : list N :=
   | x :: t => if existsb (N.eqb x) seen then uniq seen t else x :: uniq (x :: seen) t
   end.
 
-(* CsMatView::edge_cut: `partition[vertex]` for every row; the neighbours it
-   reads are < vertex *)
-Definition edge_cut_chk (g : graph) (p : list N) : option Z :=
-  if Nat.leb (length g) (length p) then Some (edge_cut_sprs g p) else None.
+(* `adjacency.edge_cut(partition)`, which depends on the topology type:
+   - CsMatView overrides it (src/topology/sprs.rs): `partition[vertex]` for every row, then
+     take_while (u < v) -- the neighbours it reads are < vertex;
+   - every other topology (Grid, &T, user types) runs the provided method of the trait
+     (src/topology/mod.rs): filter (partition[vertex] != partition[u] && u < v), which reads
+     `partition[u]` for EVERY neighbour. *)
+Definition cut_of (sp : bool) (g : graph) (p : list N) : Z :=
+  if sp then edge_cut_sprs g p else edge_cut g p.
+Definition edge_cut_chk (sp : bool) (g : graph) (p : list N) : option Z :=
+  if Nat.leb (length g) (length p)
+     && (sp || forallb (forallb (fun e => Nat.ltb (fst e) (length p))) g)
+  then Some (cut_of sp g p) else None.
 
 (* "construct gains", one vertex: for (j, w) in neighbors(idx) *)
 Fixpoint gain_row (p : list N) (pi : N) (r : row) (acc : Z) : option Z :=
@@ -126,7 +135,7 @@ Fixpoint swaps (p : list N) (l : list (nat * nat)) : option (list N) :=
 Definition flips_out := (list N * list (nat * nat) * list Z)%type.
 
 (* the flip loop, [k] iterations left *)
-Fixpoint kl_flips (old : bool) (g : graph) (uid0 uid1 : N) (wlen : nat) (no_bad : bool) (k : nat)
+Fixpoint kl_flips (sp old : bool) (g : graph) (uid0 uid1 : N) (wlen : nat) (no_bad : bool) (k : nat)
          (p : list N) (gains : list Z) (locks : list bool) (saves : list (nat * nat)) (cuts : list Z)
   : res flips_out :=
   match k with
@@ -153,10 +162,10 @@ Fixpoint kl_flips (old : bool) (g : graph) (uid0 uid1 : N) (wlen : nat) (no_bad 
                   match swap p pos1 pos2 with
                   | None => Panic 2
                   | Some p' =>
-                    match edge_cut_chk g p' with
+                    match edge_cut_chk sp g p' with
                     | None => Panic 2
                     | Some c =>
-                      kl_flips old g uid0 uid1 wlen no_bad k' p' gains2
+                      kl_flips sp old g uid0 uid1 wlen no_bad k' p' gains2
                                (set_nth (set_nth locks pos1 true) pos2 true)
                                (saves ++ [(pos1, pos2)]) (cuts ++ [c])
                     end
@@ -200,7 +209,7 @@ Fixpoint kl_passes (cfg : kl_cfg) (g : graph) (uid0 uid1 : N) (wlen : nat) (fuel
     if match max_passes cfg with Some m => (m <=? iter)%N | None => false end then Ok p
     else
       let n := length p in
-      match kl_flips (old_scan cfg) g uid0 uid1 wlen (max_bad cfg =? 0)%N (flip_count n (max_flips cfg))
+      match kl_flips (sprs_cut cfg) (old_scan cfg) g uid0 uid1 wlen (max_bad cfg =? 0)%N (flip_count n (max_flips cfg))
                      p (repeat 0 n) (repeat false n) [] [] with
       | Ok (p', saves, cuts) =>
         match first_min 0 cuts None with
@@ -223,7 +232,7 @@ Fixpoint kl_passes (cfg : kl_cfg) (g : graph) (uid0 uid1 : N) (wlen : nat) (fuel
 Definition kl (cfg : kl_cfg) (fuel : nat) (g : graph) (wlen : nat) (p : list N) : res (list N) :=
   match uniq [] p with
   | [u0; u1] =>
-    match edge_cut_chk g p with
+    match edge_cut_chk (sprs_cut cfg) g p with
     | None => Panic 2
     | Some c => kl_passes cfg g u0 u1 wlen fuel 0%N c p
     end
@@ -232,8 +241,8 @@ Definition kl (cfg : kl_cfg) (fuel : nat) (g : graph) (wlen : nat) (p : list N) 
   end.
 
 (* a number of passes after which the loop has certainly stopped *)
-Definition kl_fuel (g : graph) (p : list N) : nat :=
-  match edge_cut_chk g p with Some c => S (S (Z.to_nat c)) | None => 1%nat end.
+Definition kl_fuel (sp : bool) (g : graph) (p : list N) : nat :=
+  match edge_cut_chk sp g p with Some c => S (S (Z.to_nat c)) | None => 1%nat end.
 
 (* ---- specification vocabulary and certified checker (lemmas in Proofs/KlProofs.v) ---- *)
 
